@@ -39,7 +39,13 @@ type Case struct {
 	Styles  []string `json:"styles,omitempty"`   // style classes the generator used (for known-class routing)
 	Diags   bool     `json:"diags,omitempty"`    // also run the default checks and verify diagnostics / carets
 	RichCfg bool     `json:"rich_cfg,omitempty"` // ... with the configurable checks switched on too (richConfig)
+	// Excluded: 1-based numbers of lines holding text hidden by a pint ignore comment.  The parser sees spaces
+	// there, so a space of the value may be positioned on any character of such a line.
+	Excluded []int `json:"excluded,omitempty"`
 }
+
+// excludedLines is Case.Excluded of the case being checked (one case at a time per process).
+var excludedLines map[int]bool
 
 // richConfig switches on the configurable checks, so that diagnostics also point into label and annotation
 // keys and values, for / keep_firing_for, rule names and group labels.
@@ -177,7 +183,7 @@ func readBack(lines []string, what string, n *sig.Node) error {
 				k++
 				continue
 			}
-			ok := c == want || (c == '\n' && (want == ' ' || want == '\n')) || (c == '\r' && (want == '\n' || want == ' '))
+			ok := c == want || (c == '\n' && (want == ' ' || want == '\n')) || (c == '\r' && (want == '\n' || want == ' ')) || (want == ' ' && excludedLines[p[0]])
 			if !ok && c == '\\' {
 				// an escape sequence of a double-quoted scalar: the characters it stands for are positioned on it
 				if dec, size := yamlEscape(lines[p[0]-1][col-1:]); dec != "" && strings.HasPrefix(n.Value[k:], dec) {
@@ -242,6 +248,10 @@ type stat struct {
 }
 
 func checkCase(c Case) (st stat, err error) {
+	excludedLines = map[int]bool{}
+	for _, l := range c.Excluded {
+		excludedLines[l] = true
+	}
 	f := parser.NewParser(!c.Relaxed, parser.PrometheusSchema, model.UTF8Validation).Parse(strings.NewReader(c.Src))
 	if f.Error.Err != nil {
 		return st, errSkip
@@ -385,7 +395,7 @@ func checkDiags(c Case, lines []string) (int, error) {
 			}
 			for i := range got {
 				w := want[i]
-				if !(got[i] == w || ((got[i] == '\n' || got[i] == '\r') && (w == ' ' || w == '\n')) || escaped[d.FirstColumn-1+i]) {
+				if !(got[i] == w || ((got[i] == '\n' || got[i] == '\r') && (w == ' ' || w == '\n')) || escaped[d.FirstColumn-1+i] || (w == ' ' && excludedLines[flat[d.FirstColumn-1+i].line])) {
 					return n, fmt.Errorf("%s: the file characters selected are %q, the value characters are %q (first difference at character %d)", what, string(got), want, i+1)
 				}
 			}
@@ -650,6 +660,69 @@ func drive(t *testing.T, opts func() gen.StyleOpts, knownMode bool) {
 
 // TestPropPositions: every style except the listed known classes.
 func TestPropPositions(t *testing.T) { drive(t, baseStyles, false) }
+
+// genMaskedCase: a multi-line scalar value with lines hidden by pint ignore comments inside it (template
+// directives in an expression: the documented use of ignore/line), strict or relaxed, optionally wrapped.
+func genMaskedCase(t *rapid.T) Case {
+	form := rapid.SampledFrom([]string{"line", "next-line", "begin-end"}).Draw(t, "form")
+	payloads := []string{`{% if x %}`, `{% endif %}`, `{{ range .Values.x }}`, `sum(foo) by (job) > 10`, `"unbalanced`, `x: [`, `  - alert: Nope`, `é→ {% set a = "ü" %}`, `> 0 or vector(1)`}
+	var b []string
+	var excluded []int
+	add := func(l ...string) { b = append(b, l...) }
+	block := func(ind string) {
+		n := rapid.IntRange(1, 2).Draw(t, "nlines")
+		if form == "begin-end" {
+			add(ind + "# pint ignore/begin")
+		}
+		for i := 0; i < n; i++ {
+			p := rapid.SampledFrom(payloads).Draw(t, "payload")
+			switch form {
+			case "line":
+				add(ind + p + " # pint ignore/line")
+			case "next-line":
+				add(ind+"# pint ignore/next-line", ind+p)
+			default:
+				add(ind + p)
+			}
+			excluded = append(excluded, len(b))
+		}
+		if form == "begin-end" {
+			add(ind + "# pint ignore/end")
+		}
+	}
+	slot := rapid.SampledFrom([]string{"literal-expr", "literal-expr", "folded-annotation", "all"}).Draw(t, "slot")
+	in := func(name, ind string) {
+		if slot == name || slot == "all" {
+			block(ind)
+		}
+	}
+	chomp := rapid.SampledFrom([]string{"", "-"}).Draw(t, "chomp")
+	add("groups:", "- name: g", "  rules:", "  - alert: Foo", "    expr: |"+chomp, `      sum(foo{job=~"blackbox"}) by (job)`)
+	in("literal-expr", "      ")
+	add("      > 10", "    for: 5m", "    annotations:", "      summary: >-", "        value is {{ $value }} for")
+	in("folded-annotation", "        ")
+	add("        {{ $labels.job }} now", "  - record: bar:sum", "    expr: sum(bar)")
+	return Case{Src: strings.Join(b, "\n") + "\n", Relaxed: rapid.Bool().Draw(t, "relaxed"), Class: "masked:" + form + ":" + slot,
+		Styles: []string{"literal/ml", "masked-line"}, Diags: true, RichCfg: rapid.Bool().Draw(t, "richcfg"), Excluded: excluded}
+}
+
+func TestPropMaskedInScalar(t *testing.T) {
+	rec := vstat.New(t, prop)
+	rapid.Check(t, func(rt *rapid.T) {
+		c := genMaskedCase(rt)
+		st, err := checkCase(c)
+		if errors.Is(err, errSkip) {
+			rt.Fatalf("generator bug: the masked document is not accepted:\n%s", c.Src)
+		}
+		rec.Case(c.Class, true, c.Src, func() any { return c })
+		rec.Count("nodes_checked", int64(st.nodes))
+		rec.Count("diagnostics_checked", int64(st.diags))
+		if err != nil {
+			rec.Fail(c, err)
+			rt.Fatalf("%v\n--- src ---\n%s", err, c.Src)
+		}
+	})
+}
 
 // TestPropKnownClasses: the same with the known classes switched on; a
 // failure is tolerated only for a case that uses a class listed in
